@@ -504,6 +504,19 @@ partial def hasNullInputRequest : JVal → Bool
   | .arr l => l.any hasNullInputRequest
   | _ => false
 
+/-- the member names on the way to the node a path (child indices) points to -/
+def pathKeys : JVal → List Nat → List Bytes
+  | _, [] => []
+  | .obj kvs, i :: t => match kvs[i]? with
+    | some (k, v) => k :: pathKeys v t
+    | none => []
+  | .arr l, i :: t => match l[i]? with
+    | some v => pathKeys v t
+    | none => []
+  | _, _ => []
+
+def inputResponsesName : Bytes := [105, 110, 112, 117, 116, 82, 101, 115, 112, 111, 110, 115, 101, 115]
+
 def f32Null : String := "decode_total: InputRequestMap.UnmarshalJSON panicked on a null entry of inputRequests (nil entry dereferenced, F32)"
 
 /-! ## the engine -/
@@ -1015,7 +1028,7 @@ def stepWire (d : DState) (toks : List String) (impl : String) : DState × Verdi
         else some (pfx d s!"decode_total: decoding a {ty} panicked on a near-valid JSON value (a null / wrong-typed / wrong-case member)")
       (d, { model := "nopanic", violated := viol })
     | _ => bad d
-  | "r.case" :: ty :: _path :: key :: _ =>
+  | "r.case" :: ty :: path :: key :: jr =>
     -- one member name changed in case somewhere in a valid value of the type; the harness decodes that,
     -- the value without the member, and the value with the member under a foreign name: where the
     -- foreign name is ignored (a struct position) the case variant must be ignored as well
@@ -1024,7 +1037,14 @@ def stepWire (d : DState) (toks : List String) (impl : String) : DState × Verdi
     let viol := if d.pid != "C19" then none
       else if impl == "panic" then some (pfx d s!"decode_total: decoding a {ty} panicked on a value with the member {name} spelled in another case")
       else if impl.startsWith "struct differ" then
-        some (pfx d s!"decode_case_sensitive: decoding a {ty} matched a member spelled {name}, which differs in case from the declared name")
+        let idx := (path.splitOn ".").filterMap String.toNat?
+        let above := match pJ jr with
+          | some (j, []) => (pathKeys j idx).dropLast
+          | _ => []
+        if above.contains CallToolResult_InputRequests_name || above.contains inputResponsesName then
+          some (pfx d s!"decode_case_sensitive: below inputRequests / inputResponses member names are matched without regard to case (InputRequestMap / InputResponseMap decode with encoding/json, F32): decoding a {ty} matched a member spelled {name}")
+        else
+          some (pfx d s!"decode_case_sensitive: decoding a {ty} matched a member spelled {name}, which differs in case from the declared name")
       else none
     (d, { model := model, violated := viol })
   | "r.irm" :: r =>
